@@ -2,6 +2,7 @@ package txcache
 
 import (
 	"bytes"
+	"math"
 	"math/big"
 
 	"github.com/multiversx/mx-chain-core-go/data"
@@ -33,11 +34,29 @@ func (wrappedTx *WrappedTransaction) precomputeFields(host MempoolHost) {
 
 	gasLimit := wrappedTx.Tx.GetGasLimit()
 	if gasLimit != 0 {
-		wrappedTx.PricePerUnit = wrappedTx.Fee.Uint64() / gasLimit
+		wrappedTx.PricePerUnit = computePricePerUnit(wrappedTx.Fee, gasLimit)
 	}
 
 	wrappedTx.TransferredValue = host.GetTransferredValue(wrappedTx.Tx)
 	wrappedTx.FeePayer = wrappedTx.decideFeePayer()
+}
+
+// computePricePerUnit returns floor(fee / gasLimit), computed on big integers (the fee might not fit 64 bits).
+// The result saturates at the maximum uint64 value.
+func computePricePerUnit(fee *big.Int, gasLimit uint64) uint64 {
+	if fee.IsUint64() {
+		return fee.Uint64() / gasLimit
+	}
+	if fee.Sign() < 0 {
+		return 0
+	}
+
+	pricePerUnit := new(big.Int).Div(fee, new(big.Int).SetUint64(gasLimit))
+	if pricePerUnit.IsUint64() {
+		return pricePerUnit.Uint64()
+	}
+
+	return math.MaxUint64
 }
 
 func (wrappedTx *WrappedTransaction) decideFeePayer() []byte {
